@@ -138,6 +138,41 @@ theorem failure_is_real (kind : Container) (nItems nProc : Nat) (keyOf : Nat →
 
 example : (pollLoop .list 2 1 id [[0]] (fun _ => 3)).outcome = .failed 3 := by decide
 
+/-- completeness - the model raises no false alarm: with `n_processors ≥ 1`, if
+every worker exits with code 0 and the schedule offers at least `nItems + 1`
+polls that see every worker's exit code, the loop returns normally.  (So
+`success_all_zero` is not satisfied by a loop that never succeeds.) -/
+theorem all_zero_succeeds (kind : Container) (nItems nProc : Nat) (keyOf : Nat → Nat)
+    (hk : KeysOK kind keyOf) (hproc : 0 < nProc) (sched : List Poll) (exit : Nat → Int)
+    (hz : ∀ w, w < nItems → exit w = 0) (hs : SeesAll nItems sched)
+    (hlen : nItems < sched.length) :
+    ∃ s, pollLoop kind nItems nProc keyOf sched exit = .ok s := by
+  obtain ⟨s1, h1, hg1, hst1, hl1, hs1⟩ :=
+    canonical_dispatch_all_done (kind := kind) (env := { nItems, nProc, keyOf, exit }) hk hproc hz
+      nItems { sched := sched } (good_init _ sched) (by simp) hs hlen
+  simp only [Nat.zero_add] at hst1 hl1
+  have hne : s1.sched ≠ [] := by
+    intro hc
+    rw [hc] at hl1
+    simp only [List.length_nil, Nat.zero_add] at hl1
+    omega
+  have hp1 : ∀ e ∈ s1.procs, e.2 < nItems := by
+    intro e he
+    have := (hg1.keyed e he).2
+    omega
+  obtain ⟨p', sc', hw, _, _, _⟩ :=
+    waitBelow_all_done (kind := kind) (exit := exit) (limit := 1) (by decide) s1.procs s1.sched
+      hs1 hne hp1 hz
+  refine ⟨{ s1 with procs := p', sched := sc' }, ?_⟩
+  simp only [pollLoop, canonicalProg, exec, execStmt, h1, hw]
+
+example : SeesAll 3 [[0, 1, 2], [0, 1, 2], [0, 1, 2], [0, 1, 2]] := by
+  intro poll hp w hw
+  simp only [List.mem_cons, List.not_mem_nil, or_false, or_self] at hp
+  subst hp
+  have : w = 0 ∨ w = 1 ∨ w = 2 := by omega
+  rcases this with rfl | rfl | rfl <;> simp
+
 /-! ## generic soundness of a stage skeleton (the translator's IR) -/
 
 /-- `skeleton_sound`, part 1: for **every** stage skeleton in which each
